@@ -1391,11 +1391,13 @@ static int state_check_process(struct snapraid_state* state, int fix, struct sna
 					 * If you check/fix after a partial sync, you do not want to fix parity
 					 * for blocks that are going to have it computed in the sync completion.
 					 *
-					 * For unused parity there is no need to write it, because when fixing
-					 * we already have allocated space for it on parity file creation,
-					 * and its content doesn't matter.
+					 * For unused parity its content doesn't matter, and it's never compared,
+					 * but if it cannot be read, like in a just recreated parity file,
+					 * we write it anyway. Otherwise the space allocated for it at the end
+					 * of a parity file is truncated away as not valid when the fix ends,
+					 * and any later check fails reading it.
 					 */
-					if (used_parity && valid_parity) {
+					if (valid_parity) {
 						/* update the parity */
 						for (l = 0; l < state->level; ++l) {
 							/* if the parity on disk is wrong */
